@@ -32,6 +32,18 @@ package grpctunnel
 //@ spec func timeoutDur(s) = ite(mul128ok(timeoutValue(s), unitNanos(s[len(s)-1])), timeoutValue(s) * unitNanos(s[len(s)-1]), math.MaxInt64)
 
 //@ func timeoutFromHeaders
+//@   witness n = len(mdGet(headers, "grpc-timeout"))
+//@   witness slen = len(mdGet(headers, "grpc-timeout")[len(mdGet(headers, "grpc-timeout"))-1])
+//@   witness c0 = mdGet(headers, "grpc-timeout")[len(mdGet(headers, "grpc-timeout"))-1][0]
+//@   witness c1 = mdGet(headers, "grpc-timeout")[len(mdGet(headers, "grpc-timeout"))-1][1]
+//@   witness c2 = mdGet(headers, "grpc-timeout")[len(mdGet(headers, "grpc-timeout"))-1][2]
+//@   witness c3 = mdGet(headers, "grpc-timeout")[len(mdGet(headers, "grpc-timeout"))-1][3]
+//@   witness c4 = mdGet(headers, "grpc-timeout")[len(mdGet(headers, "grpc-timeout"))-1][4]
+//@   witness c5 = mdGet(headers, "grpc-timeout")[len(mdGet(headers, "grpc-timeout"))-1][5]
+//@   witness c6 = mdGet(headers, "grpc-timeout")[len(mdGet(headers, "grpc-timeout"))-1][6]
+//@   witness c7 = mdGet(headers, "grpc-timeout")[len(mdGet(headers, "grpc-timeout"))-1][7]
+//@   witness c8 = mdGet(headers, "grpc-timeout")[len(mdGet(headers, "grpc-timeout"))-1][8]
+//@   witness c9 = mdGet(headers, "grpc-timeout")[len(mdGet(headers, "grpc-timeout"))-1][9]
 //@   let vals = mdGet(headers, "grpc-timeout")
 //@   let s = vals[len(vals)-1]
 //@   ensures[C18] @absent    len(vals) == 0 ==> !result1
@@ -67,6 +79,8 @@ package grpctunnel
 //@   effects event:sendFunc
 
 //@ func (*defaultSender).send
+//@   witness dlen = len(data)
+//@   witness win = atomicLoad(s.currentWindow)
 //@   ghost off int = 0
 //@   ghost casOK bool = false
 //@   ghost casOld uint32 = 0
@@ -95,6 +109,7 @@ package grpctunnel
 //@   nopanic[C09]
 
 //@ func (*noFlowControlSender).send
+//@   witness dlen = len(data)
 //@   ghost off int = 0
 //@   loop 1 invariant[C01,C13] @samearray sameArray(data, old(data)) && offsetOf(data) == offsetOf(old(data)) + off
 //@   loop 1 invariant[C01,C13] @offrange  0 <= off && off <= len(old(data)) && len(data) == len(old(data)) - off
@@ -150,6 +165,9 @@ package grpctunnel
 //@   ensures fresh(result)
 
 //@ func (*defaultReceiver).accept
+//@   witness win = r.currentWindow
+//@   witness closed = ite(r.closed, 1, 0)
+//@   witness sz = meas(item)
 //@   locks r.mu
 //@   assigns nothing
 //@   ensures[C06,C09] @overrun  !old(r.closed) && meas(item) > uint64(old(r.currentWindow)) ==> result == errFlowControlWindowExceeded && r.currentWindow == old(r.currentWindow) && qlen(r.items) == old(qlen(r.items)) && sum(r.items) == old(sum(r.items))
@@ -274,6 +292,9 @@ package grpctunnel
 //@   invariant[C16]     writeMu : @onereply !isServerStream ==> numSent <= 1
 
 //@ func (*tunnelServer).getStream
+//@   witness last = s.lastSeen
+//@   witness id = streamID
+//@   witness present = ite(has(s.streams, streamID), 1, 0)
 //@   locks s.mu
 //@   assigns nothing
 //@   ensures[C01,C03,C07,C08,C09] @found   old(has(s.streams, streamID)) ==> result0 == old(s.streams[streamID]) && result1 == nil
@@ -317,6 +338,10 @@ package grpctunnel
 //@   nopanic[C09]
 
 //@ func (*tunnelServer).createStream
+//@   witness last = s.lastSeen
+//@   witness id = streamID
+//@   witness present = ite(has(s.streams, streamID), 1, 0)
+//@   witness rev = frame.ProtocolRevision
 //@   requires frame != nil && ctx != nil
 //@   ghost closing bool = false
 //@   at aftercall isClosing#1
@@ -738,6 +763,10 @@ package grpctunnel
 //@   invariant[C02,C07] stable : @donesignal isClosed(doneSignal) ==> atomicLoad(done) != nil
 
 //@ func (*tunnelChannel).getStream
+//@   witness last = c.lastStreamID
+//@   witness id = streamID
+//@   witness present = ite(has(c.streams, streamID), 1, 0)
+//@   witness created = ite(c.streamCreated, 1, 0)
 //@   locks c.mu
 //@   assigns nothing
 //@   ensures[C01,C03,C07,C09] @found   old(has(c.streams, streamID)) ==> result0 == old(c.streams[streamID]) && result1 == nil
@@ -971,6 +1000,8 @@ package grpctunnel
 //@   field ch immutable
 
 //@ func (*tunnelChannel).allocateStream
+//@   witness last = c.lastStreamID
+//@   witness finished = ite(c.finished, 1, 0)
 //@   requires held(c.streamCreation)
 //@   requires[C15] isClosed(c.awaitSettings)
 //@   requires ctx != nil
@@ -1044,6 +1075,12 @@ package grpctunnel
 //@ spec func supportedRev(o, r) = r == 0 || (r == 1 && !o.disableFlowControl)
 
 //@ func (*tunnelChannel).recvLoop
+//@   witness n = len(settings.Settings.SupportedProtocolRevisions)
+//@   witness disabled = ite(c.tunnelOpts.disableFlowControl, 1, 0)
+//@   witness r0 = settings.Settings.SupportedProtocolRevisions[0]
+//@   witness r1 = settings.Settings.SupportedProtocolRevisions[1]
+//@   witness r2 = settings.Settings.SupportedProtocolRevisions[2]
+//@   witness r3 = settings.Settings.SupportedProtocolRevisions[3]
 //@   requires c.useRevision == 0 && c.settings == nil && !isClosed(c.awaitSettings)
 //@   ghost w int = 0
 //@   ghost recvErr error = nil
@@ -1202,6 +1239,8 @@ package grpctunnel
 //@   nopanic[C09,C12]
 
 //@ func (*reverseChannels).pick
+//@   witness n = len(c.chans)
+//@   witness idx = c.idx
 //@   locks c.mu
 //@   assigns nothing
 //@   ensures[C12] @nilreg  c == nil ==> result == nil
